@@ -210,7 +210,7 @@ fn main() {
             };
             let f = verdict.fail.clone().map(|f| json!({"sig": f.sig, "detail": f.detail}));
             if cmd == "judge" {
-                println!("{}", json!({"fail": f, "nontrivial": verdict.nontrivial}));
+                println!("{}", json!({"fail": f, "nontrivial": verdict.nontrivial, "classes": verdict.classes, "discard": verdict.discard}));
             } else {
                 match verdict.fail {
                     None => {
